@@ -217,13 +217,20 @@ def finish(prop, tier, seed, results, reg, table, wall, timeout_ms):
                             "backend": o["backend"], "time_s": o["time_s"],
                             "contract": contract_text(reg, r.get("qual"))})
     trusted = list(reg.trusted) + list(dict.fromkeys(reg.axiom_notes))
+    # BOUNDED stand-ins (native sweeps with a stated bound) are reported separately and never counted as discharged
+    bounded = [o for _, o in obls if str(o["name"]).startswith("BOUNDED")]
+    bounded_ok = [o for o in bounded if o["status"] == "proved"]
     ev = {
         "property_id": prop, "tier": tier, "seed": seed, "level": "proof",
         "coverage": {
             # obligations that match a listed known finding are reported separately (they are refuted,
             # natively reproduced defects of the repository, printed as KNOWN-FINDING lines)
-            "obligations": n_total - len(known_printed),
-            "discharged": len(proved),
+            "obligations": n_total - len(known_printed) - len(bounded),
+            "discharged": len(proved) - len(bounded_ok),
+            "bounded_stand_ins": [{"unit": o["unit"], "bound": o["name"], "held_on_everything_explored": o["status"] == "proved"}
+                                  for o in bounded],
+            "bounded_note": "stand-ins labelled BOUNDED run the real code natively on a stated finite set of cases; they are "
+                            "listed here and NOT included in obligations/discharged",
             "obligations_generated": n_total,
             "known_finding_obligations": len(known_printed),
             "refuted": len(refuted),
